@@ -273,6 +273,75 @@ class C48(Check):
         sig = got.get("oauth_signature")
         return url, {"mixin": ("ok", sig if isinstance(sig, bytes) else str(sig).encode())}, want
 
+    def _extra_mixin_cases(self, auth, st):
+        """Two more entry points that sign: the request-token URL with extra_params (1.0a), and TwitterMixin.twitter_request
+        for a POST whose arguments all travel in the query string (post_args={})."""
+        import asyncio
+        import urllib.parse
+        cs, ts = "c s", "t&s"
+        for u in (U0, URLS[7]):
+            for extra in ({"scope": "a b"}, {"x_auth_access_type": "read", "z": "1&2"}, None):
+                class M(auth.OAuthMixin):
+                    _OAUTH_VERSION = "1.0a"
+                    _OAUTH_REQUEST_TOKEN_URL = build_url(u)
+
+                    def _oauth_consumer_token(self):
+                        return {"key": "ck", "secret": cs}
+                st.ev()
+                jc = {"cs": cs, "ts": None, "method": "GET", "u": u, "params": sorted((extra or {}).items()), "ver": "request-token"}
+                try:
+                    url = M()._oauth_request_token_url(callback_uri="oob", extra_params=extra)
+                except Exception as e:
+                    detrep.report(st, "mixin:request-token:exception", "%s: %s" % (type(e).__name__, e), jc)
+                    continue
+                args = dict(urllib.parse.parse_qsl(urllib.parse.urlsplit(url).query, keep_blank_values=True))
+                sig = args.pop("oauth_signature", "")
+                want = ref_signature(cs, None, "GET", u, sorted(args.items()))
+                st.nontriv(("request-token", build_url(u), repr(extra)))
+                if sig.encode() != want:
+                    detrep.report(st, "mixin:request-token-signature:%s" % ("extra_params" if extra else "plain"),
+                                  "request-token URL %s: oauth_signature %s, RFC 5849 over all the parameters it carries gives %s"
+                                  % (url, sig, want.decode()), jc)
+        for post_args, kw in (({}, {"id": "7"}), ({}, {}), ({"status": "a b"}, {}), (None, {"q": "x"})):
+            sent = {}
+
+            class Resp:
+                body = b"{}"
+
+            class Client:
+                async def fetch(self, url, **kwargs):
+                    sent.update(url=url, **kwargs)
+                    return Resp()
+
+            class T(auth.TwitterMixin):
+                def _oauth_consumer_token(self):
+                    return {"key": "ck", "secret": cs}
+
+                def get_auth_http_client(self):
+                    return Client()
+            st.ev()
+            jc = {"cs": cs, "ts": ts, "method": "POST" if post_args is not None else "GET", "u": U0, "params": sorted(kw.items()), "ver": "twitter"}
+            loop = asyncio.new_event_loop()
+            try:
+                loop.run_until_complete(T().twitter_request("/statuses/x", {"key": "tk", "secret": ts}, post_args=post_args, **kw))
+            except Exception as e:
+                detrep.report(st, "mixin:twitter:exception", "%s: %s" % (type(e).__name__, e), jc)
+                continue
+            finally:
+                loop.close()
+            method = sent.get("method", "GET")
+            parts = urllib.parse.urlsplit(sent["url"])
+            args = dict(urllib.parse.parse_qsl(parts.query, keep_blank_values=True))
+            if sent.get("body"):
+                args.update(urllib.parse.parse_qsl(sent["body"], keep_blank_values=True))
+            sig = args.pop("oauth_signature", "")
+            tu = dict(scheme=parts.scheme, host=parts.netloc, path=parts.path)
+            want = ref_signature(cs, ts, method, tu, sorted(args.items()))
+            st.nontriv(("twitter", repr(post_args), repr(kw)))
+            if sig.encode() != want:
+                detrep.report(st, "mixin:twitter-signature:%s" % method, "twitter_request(post_args=%r, %r) sent %s %s with oauth_signature %s; "
+                              "RFC 5849 for that method and those parameters gives %s" % (post_args, kw, method, sent["url"], sig, want.decode()), jc)
+
     def _eval(self, auth, case):
         if len(case) == 6:
             return self._eval_mixin(auth, case)
@@ -292,6 +361,8 @@ class C48(Check):
 
     def run_partition(self, part, tier, st):
         from tornado import auth
+        if part[0] == "mixin":
+            self._extra_mixin_cases(auth, st)
         for case in cases(part, tier):
             cs, ts, method, u, params = case[:5]
             st.ev()
@@ -354,6 +425,11 @@ class C48(Check):
         u = {k: v for k, v in case["u"].items() if v is not None}
         params = tuple((k, v) for k, v in case["params"])
         c = (case["cs"], case["ts"], case["method"], u, params)
+        if case.get("ver") in ("request-token", "twitter"):
+            from mc.core import Stats
+            st = Stats()
+            self._extra_mixin_cases(auth, st)
+            return repr({k: v[0] for k, v in st.violations.items()}) or "ok"
         if case.get("ver"):
             url, out, want = self._eval(auth, c + (case["ver"],))
             return "OAuth %s mixin %s %s %r\n  oauth_signature %r\n  RFC 5849 over the returned parameters: %r" % (
